@@ -98,7 +98,7 @@ def check_case(ctx, case):
 
 
 def run(ctx):
-    for k in range(ctx.n(14, 140)):
+    for k in range(ctx.n(22, 200)):
         check_case(ctx, krig.gen_case(ctx.rng, nobs=(10, 36)))
     ctx.lean.flush()
 
